@@ -3,5 +3,5 @@
 cd /verif
 files=$(grep '^+++ b/' seeded/$1/patch.diff | sed 's|^+++ b/||')
 git -C /tmp/wt_dev apply /verif/seeded/$1/patch.diff || exit 2
-(cd engine && ./govc fn -repo /tmp/wt_dev -pkg "$2" -func "$3" 2>&1 | tail -${4:-8})
+(cd engine && ${GOVC:-/tmp/govc_tmp2} fn -repo /tmp/wt_dev -pkg "$2" -func "$3" 2>&1 | tail -${4:-8})
 for f in $files; do git -C /tmp/wt_dev checkout -- $f 2>/dev/null || rm -f /tmp/wt_dev/$f; done
